@@ -50,6 +50,14 @@ def _uf():
 
 
 def check(ctx, rep):
+    # RANDOM files are opened for reading and writing in place: not truncated ('w+'), and not in append mode ('a+'), in which
+    # every write goes to the end of the file whatever position PUT has set
+    am = ctx.const('pcbasic/basic/devices/disk.py', 'ACCESS_MODES')
+    rep.ob('modes.random-read-write-in-place', "ACCESS_MODES[b'R'] is 'r+'", isinstance(am, dict) and am.get(b'R') == 'r+',
+           'RANDOM is opened with %r: a PUT to an existing record does not overwrite it (append) or the file is emptied on OPEN (truncate)' % (am.get(b'R') if isinstance(am, dict) else am,),
+           'pcbasic/basic/devices/disk.py')
+    rep.ob('modes.random-read-write-in-place', "the other modes: INPUT 'r', OUTPUT 'w', APPEND 'a'",
+           isinstance(am, dict) and (am.get(b'I'), am.get(b'O'), am.get(b'A')) == ('r', 'w', 'a'), repr(am), 'pcbasic/basic/devices/disk.py')
     from ..optargs import check as _optargs
     _optargs(ctx, rep, ['pcbasic/basic/devices/files.py', 'pcbasic/basic/devices/diskfiles.py'], 12)
     from . import c24 as _c24, _share as _sh
@@ -211,6 +219,8 @@ def _variants0(ctx):
 
 def variants(ctx):
     return _variants0(ctx) + [
+        mu.Variant('random-files-opened-in-append-mode', 'break', 'pcbasic/basic/devices/disk.py',
+                   lambda tree: mu.replace_expr(tree, lambda n: isinstance(n, ast.Constant) and n.value == 'r+', "'a+'"), expect='modes.random-read-write-in-place'),
         mu.Variant('width-rows-zero-treated-as-omitted', 'break', 'pcbasic/basic/devices/files.py',
                    lambda tree: (lambda fn: mu.replace_expr(fn, mu.text_is('num_rows_dummy is not None'), 'num_rows_dummy', count=2))(mu.find_def(tree, 'Files.width_')), expect='arguments.zero-is-not-omitted'),
     ]
